@@ -53,6 +53,7 @@ var cores = []string{
 	"block-recv-expr", "block-recv-let", "block-recv-ok", "block-send", "block-send-full", "block-range", "block-pipe",
 	"block-recv-nested", "block-send-expr-arg",
 	"spin-cfor-empty", "spin-true-empty", "spin-forin-empty", "spin-recursion-quiet", "spin-forin-big", "spin-anon-expr", "block-recv-after-first",
+	"block-range-body-recv", "block-range-shared", "spin-fib", "spin-mutual",
 }
 
 var wrapKinds = []struct {
@@ -67,7 +68,7 @@ const nExpr = 34
 
 func isSpinTick(core string) bool {
 	switch core {
-	case "spin-empty", "spin-incr", "spin-continue", "spin-cfor-empty", "spin-true-empty", "spin-forin-empty", "spin-recursion-quiet", "spin-forin-big", "spin-anon-expr":
+	case "spin-empty", "spin-incr", "spin-continue", "spin-cfor-empty", "spin-true-empty", "spin-forin-empty", "spin-recursion-quiet", "spin-forin-big", "spin-anon-expr", "spin-fib", "spin-mutual":
 		return false
 	}
 	return strings.HasPrefix(core, "spin-")
@@ -114,6 +115,16 @@ func renderCore(core string, u string) string {
 		return "for { func(a, b) { return a + b }(1, 2) }"
 	case "block-recv-after-first":
 		return "c" + u + " = make(chan int64, 1)\nc" + u + " <- 1\nfor v" + u + " in c" + u + " { tick() }"
+	case "block-range-body-recv":
+		// the loop body takes an item the range already counted as buffered
+		return "c" + u + " = make(chan int64, 4)\nc" + u + " <- 1\nc" + u + " <- 2\nc" + u + " <- 3\nc" + u + " <- 4\nfor k" + u + " in c" + u + " { v" + u + " = <-c" + u + " }"
+	case "block-range-shared":
+		return "c" + u + " = make(chan int64, 3)\nc" + u + " <- 1\nc" + u + " <- 2\nc" + u + " <- 3\ngo func() { <-c" + u + "; <-c" + u + " }()\nfor k" + u + " in c" + u + " { tick() }"
+	case "spin-fib":
+		// loop-free recursion through one-line functions: effectively endless
+		return "func fib" + u + "(n) { return n < 2 ? n : fib" + u + "(n - 1) + fib" + u + "(n - 2) }\nfor { fib" + u + "(16) }"
+	case "spin-mutual":
+		return "func ev" + u + "(n) { return n == 0 ? 1 : od" + u + "(n - 1) + od" + u + "(n - 1) }\nfunc od" + u + "(n) { return n == 0 ? 0 : ev" + u + "(n - 1) + ev" + u + "(n - 1) }\nfor { ev" + u + "(12) }"
 	case "block-recv-expr":
 		return "c" + u + " = make(chan int64)\n<-c" + u
 	case "block-recv-let":
